@@ -97,6 +97,8 @@ def eval_case(ctx, case):
 
     if case.get("kind") == "suite":
         return False  # witnesses from the test-suite run are replayed by running the suite again
+    if case.get("front_end") == "sphinx":
+        return eval_sphinx_tree(ctx, case)
     text, cfg = case["text"], case.get("cfg", {})
     kw = G.cfg_to_overrides(cfg)
     stages = {}
@@ -141,6 +143,35 @@ def eval_case(ctx, case):
         ctx.count("refids_seen", sum(1 for n in doc.findall(nodes.Element) if n.get("refid")))
         ctx.count("ids_seen", len(doc.ids))
     return bool(stages.get("nontrivial"))
+
+
+def eval_sphinx_tree(ctx, case):
+    """The same structural invariants on the doctrees a Sphinx build produces (after read and after post-transforms).
+    Link-resolution invariants (5) are not judged here: Sphinx resolves references in its own later phases."""
+    from docutils import nodes
+
+    cfg = {k: v for k, v in case.get("cfg", {}).items() if k not in ("highlight_code_blocks", "suppress_warnings", "inventories")}
+    b = drive.SphinxBuild({"index.md": case["text"]}, conf={"myst_" + k: v for k, v in cfg.items()} | {"keep_warnings": True}, builder="dummy")
+    try:
+        try:
+            b.build()
+            trees = {"sphinx-read": b.doctree("index"), "sphinx-resolved": b.resolved("index")}
+        except Exception as e:  # noqa: BLE001
+            ctx.count("no_document:sphinx:" + type(e).__name__)
+            return False
+        for stage, doc in trees.items():
+            res = [r for r in oracle.check_tree(doc, "parsed") if r[0].split(":")[0] in ("tree", "section", "transition", "table") or r[0] == "ids:duplicate"]
+            for key, what, *ns in res:
+                if key.split(":")[0] in ("ids", "section") and "{eval-rst}" in case["text"]:
+                    ctx.count("sphinx_evalrst_not_judged")  # node provenance tags do not survive Sphinx' doctree pickling
+                    continue
+                if key == "ids:duplicate" and "id 'equation-" in what:
+                    key = "ids:duplicate:sphinx-equation-label"
+                ctx.violation(key, f"[{stage}] {what}", case, None)
+            ctx.count("sphinx_trees_checked")
+    finally:
+        b.close()
+    return True
 
 
 def risky(R):
@@ -218,6 +249,13 @@ def run_shard(ctx):
     if ctx.shard == 0:
         run_suite_with_monitor(ctx)
     n = 6000 if ctx.tier == "quick" else 200000
+    for i in range(12 if ctx.tier == "quick" else 800):
+        case = make_case(R, i)
+        case["front_end"] = "sphinx"
+        eval_case(ctx, case)
+        ctx.case(("sphinx", case["text"], repr(case["cfg"])), True)
+        if ctx.time_left() < ctx.budget_s * 0.75:
+            break
     for i in range(n):
         case = make_case(R, i)
         nt = eval_case(ctx, case)
@@ -231,7 +269,7 @@ def run_shard(ctx):
 
 def finalize(m, tier):
     c = m["counters"]
-    for k, lo in (("trees_checked_after_parse", 5000), ("trees_checked_after_transforms", 5000), ("footnotes_seen", 500), ("tables_seen", 500), ("sections_seen", 2000), ("refids_seen", 1000), ("ids_seen", 5000), ("suite_trees_checked", 300), ("suite_tests_run", 1000)):
+    for k, lo in (("trees_checked_after_parse", 5000), ("trees_checked_after_transforms", 5000), ("footnotes_seen", 500), ("tables_seen", 500), ("sections_seen", 2000), ("refids_seen", 1000), ("ids_seen", 5000), ("suite_trees_checked", 300), ("suite_tests_run", 1000), ("sphinx_trees_checked", 150)):
         if c.get(k, 0) < lo:
             m["inconclusive"].append(f"monitor observed only {c.get(k, 0)} '{k}' events (< {lo})")
     nodoc = sum(v for k, v in c.items() if k.startswith("no_document:"))
